@@ -10,6 +10,8 @@
  R5 centring subtracts the mean over all rows passed in (no row filter);
  R6 levels not selected by the user are pooled into 'other' before the dummy expansion (skipped when 'all' is selected);
  R7 per-state feature copies only for states that have reporting rows;
+ R9 a caller that fits on a subset of the reporting rows (interval regressions: the training rows) marks the remaining reporting
+    rows as rows to predict on before the matrix is prepared, so the featurizer's fitting rows are the rows that are fit;
  R8 callers slice the prepared matrix with the same bounds as the frames it was built from (bootstrap model and strata; the
     conformal callers are decided in C04.R6 / C05.R3);
  R9 typestate: prepare_data is called exactly once per Featurizer object (it appends to the feature lists).
@@ -319,3 +321,42 @@ def check(ctx):
                                                      for c in util.own_nodes(g, ast.Call))]
     ctx.ob("C16.R9.model", "BootstrapElectionModel|self.featurizer prepared only by the run-once bootstrap", [g.name for g in users] == ["compute_bootstrap_errors"],
            cf.where(), f"self.featurizer.prepare_data is called in {[g.name for g in users]}")
+
+    # ---- R9 fitting rows of the featurizer = rows that are fitted ------------------------------------------------
+    # The featurizer decides which dummies are "active" on the rows it regards as fitting rows (reporting & expected, R3).  A caller
+    # that fits on a SUBSET of the reporting rows (the conformal interval regressions: the first train_rows of the shuffled reporting
+    # units, the rest calibrate) has to mark the other reporting rows as rows to predict on before the matrix is prepared -
+    # otherwise a level seen only among the calibration rows gets a dummy that is constant 0 on the rows that are fit.
+    from ..unitmodel import CM
+    ccls = repo.cls(CM, "ConformalElectionModel")
+    bf = ctx.fn(CM, "ConformalElectionModel.get_unit_prediction_interval_bounds")
+    bs = ctx.builder().summarize(bf, self_cls=ccls)
+    preps = []
+    for t_ in [x for _, _, x, _ in bs.assigns] + [bs.ret()]:
+        for x in ir.walk(t_):
+            if x[0] == "call" and x[1][0] == "attr" and x[1][2] == "prepare_data" and x not in preps:
+                preps.append(x)
+    ctx.sites("C16.R9", len(preps), 1, "prepare_data call of the interval regressions")
+    fits_ = [x for _, x, _ in bs.effects if x[0] == "call" and x[1] == _A("fit_model")]
+    for x in preps:
+        arg = x[2][0]
+        # rows handed to fit_model: filter_to_active_features(x_all[:TR])
+        trs = {f_[2][1][2][0][2][2] for f_ in fits_ if f_[2][1][0] == "call" and f_[2][1][2] and f_[2][1][2][0][0] == "sub" and f_[2][1][2][0][1] == x
+               and f_[2][1][2][0][2][0] == "slice" and f_[2][1][2][0][2][1] == ("const", None)}
+        ok9, detail = False, "fitted slice of the prepared matrix not recognised"
+        if len(trs) == 1:
+            TR = next(iter(trs))
+            detail = ("the matrix is prepared from all reporting rows as fitting rows although only the first train_rows are fit: a level that "
+                      "occurs only among the calibration rows gets a dummy that is constant on the fitted rows")
+            if arg[0] == "setattr" and arg[2] == "iloc" and arg[3][0] == "setitem" and arg[3][2][0] == "tuple" and len(arg[3][2][1]) == 2:
+                rows, colpos = arg[3][2][1]
+                col_ok = colpos[0] == "call" and colpos[1][0] == "attr" and colpos[1][2] == "get_loc" and colpos[2] == (("const", "reporting"),)
+                rows_ok = rows[0] == "slice" and rows[1] == TR and rows[2] == _A("n_train") and rows[3] == ("const", None)
+                zero = arg[3][3] == ("const", 0)
+                ok9 = col_ok and rows_ok and zero
+                if ok9:
+                    detail = "rows train_rows .. n_train (the calibration rows) are marked reporting = 0 before prepare_data: fitting rows = fitted rows"
+                else:
+                    detail = f"holdout mark is {ir.show(arg[3], maxdepth=4)[:160]}: not 'reporting := 0 on rows [train_rows : n_train]'"
+        ctx.ob("C16.R9.fitting-rows", f"{bf.qualname}|featurizer fitting rows = the rows that are fit", ok9, bf.where(), detail)
+
